@@ -17,6 +17,8 @@ import PdModel.Proto
 * `napoleon <g|n> <hdr> <t<extra>|u<extra>,…>` → written line, `:param` line, `:type` line of every entry
 * `docgn <g|n> <isModule> <linenumber> <strLineno> <u:value> <raw line of the section header|-> <entries|-> <cls:raw:j>*`
       → every `(line, kind)` reported for a google / numpy docstring of the generated shape
+* `docassign <fmt> <old docstring_lineno> <linenumber> <strLineno> <u:value> <cls:raw:j>*`
+      → `(line, kind)` reported for a text assigned to `obj.__doc__`
 * `parser <fmt> <u:value> <cls:raw:j>*` → `Field.lineno`s and `ParseError._linenum`s the parser stores
 * `inrange <strLineno> <u:value> <isModule> <linenumber> <d|x|o> <offset>` → `<line> in|out`
 * `sys <W> <verbosity> <op>*`  ops: `m:<sec>:<msg>:<thresh>:<top>:<once>`, `r:<sec>:<obj>:<nerrs>`
@@ -266,6 +268,19 @@ def handle (args : List String) : String :=
               [showLine (report o .xref (convertedTypeOffset numpy hdr es k)) ++ ":X"] else [])
         | none => []
       " ".intercalate ((sortToks (paras ++ sect)).eraseDups)
+    | _, _, _, _, _, _ => "bad-op"
+  | "docassign" :: fmt :: oldDl :: ln :: sl :: v :: cs =>
+    -- `obj.__doc__ = <literal on line sl with value v>`; the object's docstring_lineno / linenumber are oldDl / ln
+    match parseFmt fmt, parseInt oldDl, parseInt ln, sl.toNat?, Proto.decodeStr v, cs.mapM parseIOCons with
+    | some fmt, some oldDl, some ln, some sl, some doc, some cs =>
+      let d : Int := (extractLinenum sl doc : Nat)
+      let toks := (ioReported fmt cs).map fun c =>
+        let r := ioLine fmt sl doc ln false c
+        let sec := if r.2 == "X" then Sec.xref else Sec.docstring
+        match r.1 with
+        | .num n => showLine (reportAfterDocAssignment ⟨oldDl, ln, false⟩ sec (n - d)) ++ ":" ++ r.2
+        | .unknown => "???:" ++ r.2
+      " ".intercalate ((sortToks toks).eraseDups)
     | _, _, _, _, _, _ => "bad-op"
   | "parser" :: fmt :: v :: cs =>
     -- what the parser itself stores: Field.lineno of every field-level construct, ParseError._linenum of every error
